@@ -48,6 +48,10 @@ def run_sessions(run, specs, oracle=None, relevant=0xFF, model_verify=True, jobs
                     meta.append((s, vi, j))
                     if not info["masks_known"][j]:
                         unknown_masks.add(len(terms) - 1)
+                if v["result"] == "ok" and len(s["verifies"][vi]["vmembers"]) > 1:
+                    n_ = len(s["verifies"][vi]["vmembers"])
+                    terms.append(f"(chk_chunks {n_}%nat {coq_list([str(x) + '%nat' for x in info['sizes']])})")
+                    meta.append((s, vi, "chunks"))
         if extra_terms:
             for (tt, m) in extra_terms(s, o):
                 terms.append(tt)
